@@ -91,11 +91,16 @@ def _(v):
 
     def triv(L):
         return [("i_nonneg", L.i >= 0)]
+
+    from contracts.C06_diff import varconfig_invariant
+    varconfig_inv = varconfig_invariant(v)
     outer = v.loop_where(fn, lambda i: i["depth"] == 0 and i["kind"] == "WhileStmt", invariant=main_inv)
     inner = [o for (o, i) in v.loops_of(fn) if i["depth"] == 1 and i["kind"] == "WhileStmt"]
     v.loop(fn, inner[0], invariant=search2_inv)
     v.loop(fn, inner[1], invariant=search1_inv)
-    v.loop_where(fn, lambda i: i["kind"] == "ForStmt", invariant=triv)
+    v.loop_where(fn, lambda i: i["kind"] == "ForStmt" and "vb1" not in i["names"], invariant=triv)
+    vcl = v.loop_where(fn, lambda i: i["kind"] == "ForStmt" and "vb1" in i["names"], invariant=varconfig_inv)
+    v.ground("var_config_branch_present", len(vcl) == 1, str(vcl))
     ret = v.call(fn, E["b1"], E["size1"], E["b2"], E["size2"], Ptr(None, (), True), Ptr(None, (), True), z3.IntVal(2))
     v.prove("returns_boolean", z3.Or(ret == 0, ret == 1))
 
@@ -255,3 +260,9 @@ def _(v):
     v.ground("copy_written_by_init_and_loader", touched_dst == ["reb_simulation_free_pointers", "memset", "reb_simulation_init", "reb_input_fields"], str(calls))
     order = [n for (n, a) in calls]
     v.ground("buffer_freed_stream_closed", order[-2:] == ["fclose", "free"], str(order))
+
+
+# a copy is load(save(r)): state that is not persisted but reconstructed by the loader must be reconstructed whenever it is
+# in use, otherwise the copy does not evolve like its source (shared with C05)
+from contracts.C05_roundtrip import loader_tree_task as _ltt
+P.task("copy.loader_rebuilds_tree_iff_in_use", fn="reb_input_fields", files=["src/input.c", "src/output.c", "src/binarydiff.c"])(_ltt)
